@@ -255,12 +255,14 @@ class _Quantifier(_UnaryOperator):
         operand = self.operands[0]
 
         if isinstance(operand, _Quantifier):
+            neuron = self._create_neuron(arity=len(operand.neurons))
+            input_bounds = torch.vstack([n.get_data() for n in operand.neurons])
+            input_bounds = input_bounds.permute([1, 0])[None, :, :]
+            bounds = neuron.func_inv(self.get_data()[None, :], input_bounds)
+            bounds = bounds[0].permute([1, 0])
             result = 0
             for i, operand_neuron in enumerate(operand.neurons):
-                ib = operand_neuron.get_data().permute([1, 0])[None, :, :]
-                bounds = self.func_inv(self.get_data()[None, :], ib)
-                bounds = bounds[0].permute([1, 0])
-                result += operand_neuron.aggregate_bounds([0], bounds[None, 0])
+                result += operand_neuron.aggregate_bounds([0], bounds[None, i])
 
             return result
 
